@@ -124,7 +124,7 @@ def main(here, argv):
         if extra_total > 0:
             nviol += 0  # already represented by the listed ones
     wall = time.time() - t0
-    write_evidence(env, spec, results, inconclusive, nviol, known_lines, wall)
+    write_evidence(env, spec, results, inconclusive, nviol, known_lines, wall, partial=bool(a["only"]) or bool(os.environ.get("VERIF_SKIP_LAYERS")))
     for ln in known_lines:
         print(ln)
     if nviol > 0:
@@ -140,7 +140,7 @@ def main(here, argv):
     return 0
 
 
-def write_evidence(env, spec, results, inconclusive, nviol, known_lines, wall):
+def write_evidence(env, spec, results, inconclusive, nviol, known_lines, wall, partial=False):
     evaluations = sum(int(r.get("evaluations", 0)) for r in results)
     # distinct: the main (first tzmon) layer counts distinct inputs; other layers re-run slices of the
     # same generators under another build, so their inputs are not added again
@@ -181,6 +181,9 @@ def write_evidence(env, spec, results, inconclusive, nviol, known_lines, wall):
         "violations": nviol,
     }
     d = os.path.join(env.here, "evidence")
+    if partial:
+        # a run restricted to some layers (development aid) must not replace the evidence of a full run
+        d = os.path.join(env.here, "work", "partial-evidence")
     os.makedirs(d, exist_ok=True)
     tmp = os.path.join(d, ".%s.json.tmp" % env.prop)
     with open(tmp, "w") as f:
